@@ -16,6 +16,11 @@ A stale value costs one extra round (`pen`, `penr`), a fresh one none.
 -/
 namespace MQ
 
+/-- `k` consecutive steps of thread `t` alone -/
+def soloRun (σ : St) (t : Nat) (inps : Nat → Nat) : Nat → St
+  | 0 => σ
+  | k + 1 => (stepRun (soloRun σ t inps k) t (inps k)).2
+
 /-- program points of a `try_send` / `try_recv` / `try_recv_view` call (wait strategy without notification) -/
 def tryPC : Outer → PC → Bool
   | .trySend, pc =>
